@@ -348,3 +348,17 @@ class GenOf(Shape):
             ii = to_int(i) if not outer else outer + (to_int(i),)
             return inner.make(_StableNames(mk.current()), _base, ii)
         return SGen(SList(elem, n, name))
+
+
+class UnionT(Shape):
+    """a value of one of several shapes: decided by path forks"""
+
+    def __init__(self, *alts):
+        self.alts = alts
+
+    def make(self, mk, name, idx=None):
+        sel = mk.const(name + '.kind', IntS)
+        for i, a in enumerate(self.alts[:-1]):
+            if mk.branch(sel == i):
+                return a.make(mk, name, idx)
+        return self.alts[-1].make(mk, name, idx)
